@@ -1039,6 +1039,16 @@ func (c *c08) step(st c08Step) error {
 			} else if stripSigs(fce.V2FileContract) != stripSigs(last.Revision) {
 				c.report("renewal-confirmed-differs:"+st.RPC, "the confirmed renewed contract differs from the one handed to the Contractor", &last, nil)
 			}
+			// the successor carries over exactly the predecessor's roots
+			if succ, err := c.lab.State(newID); err == nil {
+				if !slices.Equal(succ.Roots, pre.State.Roots) {
+					c.report("successor-roots-differ:"+st.RPC, fmt.Sprintf("the renewed contract holds %d roots, its predecessor %d", len(succ.Roots), len(pre.State.Roots)), &last, nil)
+				} else if err := succ.CheckRoots(); err != nil {
+					c.report("roots-vs-revision:"+st.RPC, "the renewed contract's roots do not match its revision: "+err.Error(), &last, nil)
+				} else {
+					c.r.Count("successor_roots_checked", 1)
+				}
+			}
 			c.prevIDs = append(c.prevIDs, c.contract.ID)
 			c.prev = append(c.prev, rhp.ContractRevision{ID: c.contract.ID, Revision: pre.State.Revision})
 			c.contract = rhp.ContractRevision{ID: newID, Revision: last.Revision}
@@ -1403,7 +1413,9 @@ func (c *c08) lifecycle(variant string) error {
 	if err := c.step(c08Step{RPC: "form", Length: 26}); err != nil {
 		return err
 	}
-	for _, st := range []c08Step{{RPC: "append", Batch: []string{"new", "new", "new", "new"}}, {RPC: "fund", Accounts: []int{0, 1}, Amounts: []uint64{5000}}} {
+	// append, then free some (not all): capacity stays above filesize, which is
+	// what a refresh keeps and a renewal drops
+	for _, st := range []c08Step{{RPC: "append", Batch: []string{"new", "new", "new", "new", "new"}}, {RPC: "free", Indices: []uint64{1, 3}}, {RPC: "fund", Accounts: []int{0, 1}, Amounts: []uint64{5000}}} {
 		if err := c.step(st); err != nil {
 			return err
 		}
